@@ -1,5 +1,7 @@
 import ModVerif.AuditCmd
 import ModVerif.Props.C17
 import ModVerif.Tie.Zip
+import ModVerif.Tie.FnZip
 #audit_module ModVerif.Props.C17
 #audit_module ModVerif.Tie.Zip
+#audit_module ModVerif.Tie.FnZip
